@@ -21,6 +21,6 @@ for r in rows:
     out.append("| %s | %s | %s | %s | %s | %s |" % r)
 n = len(rows); k = sum(1 for r in rows if r[4] != "-")
 missed_first = sum(1 for r in rows if r[3] == "missed")
-out += ["", "%d changes, %d reported by at least one check; %d of them were missed when first evaluated and are reported since the checks were strengthened (m1-m3: first wave, w2*: second, w3*: third wave of sub-agents)." % (n, k, missed_first)]
+out += ["", "%d changes, %d reported by at least one check; %d of them were missed when first evaluated and are reported since the checks were strengthened (m1-m3: first wave, w2* ... w6*: later waves of sub-agents)." % (n, k, missed_first)]
 open(os.path.join(V, "seeded", "SUMMARY.md"), "w").write("\n".join(out) + "\n")
 print(n, k)
